@@ -139,7 +139,10 @@ struct CaseDir {
 using Lines = std::vector<std::string>;
 using DirState = std::map<int, Lines>;   // generation number -> complete lines
 
-std::string genName(int g) { char b[32]; snprintf(b, sizeof b, "log.%02d", g); return b; }
+// the generation number is written with a fixed *minimum* width: 2 normally, 1 for the configurations with 10 and more
+// generations (names log.0 .. log.9, log.10, log.11)
+int gNumWidth = 2;
+std::string genName(int g) { char b[32]; snprintf(b, sizeof b, gNumWidth == 1 ? "log.%d" : "log.%02d", g); return b; }
 
 std::string describe(const DirState &s) {
   if (s.empty()) return "{no files}";
@@ -305,6 +308,8 @@ std::string runCase(const Case &c) {
   st.cls(c.kind == COUNTED ? "policy.counted" : "policy.maxsize");
   st.cls(c.viaHandler ? "via.handler" : "via.policy");
   if (c.gens == 1) st.cls("gens.1");
+  gNumWidth = c.gens >= 10 ? 1 : 2;
+  if (c.gens >= 10) st.cls("gens.ten_or_more_with_one_digit_minimum_width");
   uint64_t cnt[CLS_COUNT] = {};
   struct Flush {
     uint64_t *cnt;
@@ -315,7 +320,7 @@ std::string runCase(const Case &c) {
   clfn::Definition def;
   {
     clfn::Creator creator(def);
-    creator << (dir.path + "/log.") << 2 << clfn::number;   // generation number part, no date part
+    creator << (dir.path + "/log.") << gNumWidth << clfn::number;   // generation number part, no date part
   }
   for (int g = 0; g < c.gens; ++g) {
     std::string viaBuilder = clfn::Builder::filename(def, g, 0);
@@ -498,13 +503,14 @@ rc::Gen<Case> genCase() {
   return rc::gen::exec([]() {
     Case c;
     c.kind = *rc::gen::weightedElement<int>({{2, COUNTED}, {3, MAXSIZE}});
-    c.gens = *rc::gen::weightedElement<int>({{2, 1}, {3, 2}, {3, 3}, {2, 4}});
+    c.gens = *rc::gen::weightedElement<int>({{4, 1}, {6, 2}, {6, 3}, {4, 4}, {1, 11}, {1, 12}});
     c.viaHandler = *rc::gen::arbitrary<bool>();
     if (c.kind == COUNTED) {
       c.limit = *rc::gen::weightedElement<size_t>({{2, 1}, {3, 2}, {3, 3}, {2, 4}, {1, 5}});
+      if (c.gens >= 10) c.limit = *range<size_t>(1, 2);   // many generations: small files, so that histories reach the last one
       defaultLengths(c);
     } else {
-      c.limit = *range<size_t>(8, 48);
+      c.limit = c.gens >= 10 ? *range<size_t>(8, 12) : *range<size_t>(8, 48);
       const size_t hi = c.limit - 2;
       if (*rc::gen::weightedElement<int>({{1, 0}, {2, 1}}) == 0) defaultLengths(c);
       else {
@@ -514,6 +520,7 @@ rc::Gen<Case> genCase() {
       }
     }
     size_t n = *rc::gen::weightedOneOf<size_t>({{3, range<size_t>(1, 12)}, {4, range<size_t>(8, 30)}, {3, range<size_t>(25, 60)}});
+    if (c.gens >= 10) n = *range<size_t>(30, 60);
     // reopen density varies per case: a few histories are reopen-heavy, most write-heavy
     int reopenWeight = *rc::gen::weightedElement<int>({{3, 1}, {3, 3}, {1, 8}});
     int longWeight = *rc::gen::weightedElement<int>({{2, 1}, {2, 4}});
